@@ -192,7 +192,7 @@ func (l *loaded) newEngine(h *Harness, params []int, model map[string]string) (*
 		named: map[string]BytesV{}, unwind: h.unwind(), funcs: map[string]int{}, solver: theSolver, params: params,
 		linked: l.linked, names: h.Link, callers: []int{-1}, sigWho: map[int]*T{}, sigMsg: map[int]BytesV{},
 		sigMembers: []string{"m0", "m1", "m2"}, txTime: t0var(), model: model,
-		obs: map[string]*Obligation{}, feasCache: map[[2]int]bool{}, replayCovers: map[string]int{}, replayHolds: map[string]int{}, replayFails: map[string]int{}}
+		nativeMode: h.Native, harnessPkg: h.Pkg, obs: map[string]*Obligation{}, feasCache: map[[2]int]bool{}, replayCovers: map[string]int{}, replayHolds: map[string]int{}, replayFails: map[string]int{}}
 	e.world = newWorld(1, model != nil)
 	for n, dir := range probeContracts {
 		e.world.srcDir[n] = filepath.Join(verifRoot, "engine", "probe", dir)
@@ -407,6 +407,9 @@ func runJob(h *Harness, params []int, tier string) *JobResult {
 func trimModel(m map[string]string) map[string]string {
 	out := map[string]string{}
 	for k, v := range m {
+		if i := strings.LastIndex(k, "_"); i > 0 && hiddenTags[k[:i]] {
+			continue
+		}
 		if strings.HasPrefix(k, "entryscript") || strings.HasPrefix(k, "sha256") || strings.HasPrefix(k, "ripemd160") ||
 			strings.HasPrefix(k, "stdacct") || strings.HasPrefix(k, "multisig") || k == "T0" {
 			continue
